@@ -187,6 +187,48 @@ static std::string read_check(const std::string& fn, const std::vector<Model>& a
     return "";
 }
 
+// E2 over the reader's own state: every sequence of <= depth queries on ONE ERst object, then every array of every step must
+// still read back as the model says (what a reader returns must not depend on what was asked before)
+static int g_order_depth = 2;
+static void order_check(const std::string& fn, const Model& m, const std::string& tag, const std::string& hs, const std::string& rp) {
+    if (m.size() < 2) return;
+    const int first = m.front().first, last = m.back().first;
+    static const char* opn[] = {"loadReportStepNumber(first)", "loadReportStepNumber(last)", "getRestartData<int>(IBLK,last)", "getRestartData<double>(DATA,first)", "listOfRstArrays(first)", "listOfRstArrays(last)", "hasArray(BIG,last)", "getRestartData<std::string>(ZWEL,first)"};
+    const int NOP = 8;
+    std::vector<int> seq;
+    std::function<void()> rec = [&]() {
+        if (!seq.empty()) {
+            std::string sn; for (int o : seq) sn += std::string(sn.empty() ? "" : " ; ") + opn[o];
+            try {
+                Opm::EclIO::ERst rst(fn);
+                for (int o : seq) switch (o) {
+                    case 0: rst.loadReportStepNumber(first); break;
+                    case 1: rst.loadReportStepNumber(last); break;
+                    case 2: (void)rst.getRestartData<int>("IBLK", last, 0); break;
+                    case 3: (void)rst.getRestartData<double>("DATA", first, 0); break;
+                    case 4: (void)rst.listOfRstArrays(first); break;
+                    case 5: (void)rst.listOfRstArrays(last); break;
+                    case 6: (void)rst.hasArray("BIG", last); break;
+                    case 7: (void)rst.getRestartData<std::string>("ZWEL", first, 0); break;
+                }
+                std::string bad;
+                for (auto& [st, v] : m) {
+                    Payload p = payload(st, v);
+                    if (rst.getRestartData<int>("INTEHEAD", st, 0) != p.ih) bad = "INTEHEAD"; else if (rst.getRestartData<double>("DATA", st, 0) != p.d) bad = "DATA"; else if (rst.getRestartData<float>("BIG", st, 0) != p.big) bad = "BIG";
+                    else if (rst.getRestartData<std::string>("ZWEL", st, 0) != p.names) bad = "ZWEL"; else if (rst.getRestartData<int>("IBLK", st, 0) != p.blocks) bad = "IBLK";
+                    if (!bad.empty()) { bad += " of step " + std::to_string(st); break; }
+                    auto lst = rst.listOfRstArrays(st); if (lst.size() != 5 && lst.size() != 6) { bad = "listOfRstArrays(" + std::to_string(st) + ") has " + std::to_string(lst.size()) + " entries"; break; }
+                }
+                if (!bad.empty()) R->violation(tag + ":reader-order:value", "file after history [" + hs + "]: " + bad + " reads back wrong after the query sequence [" + sn + "] on one ERst object", rp);
+                R->count("reader_sequences");
+            } catch (const std::exception& e) { R->violation(tag + ":reader-order:throws", "file after history [" + hs + "]: ERst throws (" + std::string(e.what()).substr(0, 160) + ") in/after the query sequence [" + sn + "] on one object", rp); }
+        }
+        if ((int)seq.size() == g_order_depth) return;
+        for (int o = 0; o < NOP; ++o) { seq.push_back(o); rec(); seq.pop_back(); }
+    };
+    rec();
+}
+
 struct Ev { int s, v; };
 static std::vector<Ev> g_events;
 static std::string hist_str(const std::vector<int>& h) { std::string o; for (int e : h) { o += std::to_string(g_events[e].s); o += g_events[e].v ? "B" : "A"; o += " "; } return o; }
@@ -251,8 +293,9 @@ int main(int argc, char** argv) {
     fs::create_directories(g_img);
     const int N = run.thorough() ? 4 : 3;
     const int depth = run.thorough() ? 6 : 5;
+    g_order_depth = run.thorough() ? 3 : 2;
     for (int s = 0; s <= N; ++s) for (int v = 0; v < 2; ++v) g_events.push_back({s, v});
-    run.rule = "BFS over write(step,version) events, steps 0.." + std::to_string(N) + " x {A,B}, depth " + std::to_string(depth) + ", state key = file bytes (formatted and unformatted); per state: file == fresh file of surviving steps and ERst read-back; per unformatted transition: syscall log is truncate-then-append and every byte-prefix crash image is read with ERst";
+    run.rule = "BFS over write(step,version) events, steps 0.." + std::to_string(N) + " x {A,B}, depth " + std::to_string(depth) + ", state key = file bytes (formatted and unformatted); per state: file == fresh file of surviving steps, ERst read-back, and every sequence of <= " + std::to_string(run.thorough() ? 3 : 2) + " queries on one ERst object followed by a read of all arrays of all steps; per unformatted transition: syscall log is truncate-then-append and every byte-prefix crash image is read with ERst";
     run.assumptions = {"crash model: a crash leaves a prefix of the logged truncate/append byte sequence (validated against the interposed libc calls on every transition); no block reordering", "payload arrays INTEHEAD/DATA/BIG/ZWEL whose lengths depend on (step, version)"};
 
     std::string edges_file; bool edges_fmt = false;
@@ -347,6 +390,7 @@ int main(int argc, char** argv) {
                     run.count("crash_images", n);
                     run.count("transitions_crash_enumerated");
                 }
+                if (!states.count(nb) && (int)(nstates % run.nshards) == run.shard) order_check(fname(g_dir + "/work", fmt), m2, tag, hs, rp);
                 if (!states.count(nb)) { states[nb] = {h2, m2}; frontier.push_back(nb); ++nstates; maxd = std::max<uint64_t>(maxd, h2.size()); if (run.shard == 0 && run.samples.size() < 4 && h2.size() >= 3) run.sample_str(std::string(fmt ? "fmt " : "bin ") + "history [" + hs + "] -> surviving [" + mstr(m2) + "] file " + std::to_string(nb.size()) + " bytes"); }
                 if (run.shard == 0) run.observe(vf::fnv(nb));
             }
